@@ -171,6 +171,14 @@ fn execute(exe: &str, dir: &str, id: u64, text: &str, route: &Route, opts: &[Str
         args.push("--input-format".into());
         args.push(route.flag.into());
     }
+    // some inputs start with blank lines / indentation (both formats allow leading white space)
+    let padded;
+    let text = if id % 5 == 3 {
+        padded = format!("\n  \t{text}");
+        padded.as_str()
+    } else {
+        text
+    };
     let inpath = format!("{dir}/in{id}{}", route.ext);
     let outpath = format!("{dir}/out{id}.json");
     let _ = std::fs::remove_file(&outpath);
